@@ -11,9 +11,13 @@ package main
 // every set member involved its bucket id and hash bytes (VerifHash/VerifHashBytes).
 //
 // Predicates on the real outputs: round trip (type preserved, RawEquals and Equals),
-// mirror (plain encoding/json decoding has the value's structure), document round
-// trip, rejection of unknown / marked / infinite, no optional-attribute annotation in the
-// type of any decoded value.
+// mirror (plain encoding/json decoding has the value's structure, for EVERY constraint: wrapper
+// objects exactly at the placeholder positions, numbers compared by value; c15_d15.go, which also
+// evaluates Lean's specification `mirrorsW` on the real token tree), document round
+// trip, rejection of unknown / marked / infinite (infinities at every depth: runC15Inf), no
+// optional-attribute annotation in the type of any decoded value, Marshal of a non-conforming
+// value = Marshal of convert.Convert (runC15Conv), SimpleJSONValue.MarshalJSON = Marshal against
+// the own type, ImpliedType at its nesting limit (runC15Deep), coverage floors (c15Floors).
 //
 // A round-trip failure is signed with its ROOT CAUSE, worked out from what was observed
 // (c15Cause): nested-placeholder-null/-empty (type lost or output refused, and the outcome is
@@ -691,55 +695,6 @@ func c15GoLit(v cty.Value, t cty.Type) string {
 	return fmt.Sprintf("v := %#v; t := %#v; b, _ := json.Marshal(v, t); v2, err := json.Unmarshal(b, t)", v, t)
 }
 
-// plainMirrors: does the plain encoding/json decoding x have the structure of v?
-func plainMirrors(v cty.Value, x interface{}) bool {
-	if v.IsNull() {
-		return x == nil
-	}
-	ty := v.Type()
-	switch {
-	case ty == cty.Bool:
-		b, ok := x.(bool)
-		return ok && b == v.True()
-	case ty == cty.String:
-		s, ok := x.(string)
-		return ok && s == v.AsString()
-	case ty == cty.Number:
-		n, ok := x.(json.Number)
-		if !ok {
-			return false
-		}
-		return string(n) == v.AsBigFloat().Text('f', -1)
-	case ty.IsListType() || ty.IsSetType() || ty.IsTupleType():
-		a, ok := x.([]interface{})
-		if !ok || len(a) != v.LengthInt() {
-			return false
-		}
-		i := 0
-		for it := v.ElementIterator(); it.Next(); i++ {
-			_, ev := it.Element()
-			if !plainMirrors(ev, a[i]) {
-				return false
-			}
-		}
-		return true
-	case ty.IsMapType() || ty.IsObjectType():
-		m, ok := x.(map[string]interface{})
-		if !ok || len(m) != v.LengthInt() {
-			return false
-		}
-		for it := v.ElementIterator(); it.Next(); {
-			ek, ev := it.Element()
-			mv, ok := m[ek.AsString()]
-			if !ok || !plainMirrors(ev, mv) {
-				return false
-			}
-		}
-		return true
-	}
-	return false
-}
-
 // ---- cases ----------------------------------------------------------------
 
 // c15Marshal: correspondence of Marshal on a conforming pair; returns the bytes.
@@ -861,15 +816,9 @@ func c15RoundTrip(ctx *Ctx, v cty.Value, t cty.Type, how string) {
 			ctx.Tag("rawequals-false-but-equals-true")
 		}
 	}
-	// mirror: plain decoding has the value's structure (own type, no placeholder => no wrappers)
-	if how == "own-type" && !v.Type().HasDynamicTypes() {
-		var x interface{}
-		dec := json.NewDecoder(bytes.NewReader(b))
-		dec.UseNumber()
-		if err := dec.Decode(&x); err != nil || !plainMirrors(v, x) {
-			ctx.Fail(Failure{Site: "mirror", Sig: "plain-decoding-differs", What: "plain encoding/json decoding of Marshal's output does not mirror the value", Input: in, GoLit: c15GoLit(v, t), Outcome: string(b)})
-		}
-	}
+	// mirror: plain decoding has the value's structure, wrapper objects exactly at the placeholder
+	// positions of the constraint (every constraint; c15_d15.go)
+	c15MirrorW(ctx, v, t, b)
 }
 
 // c15Same: Lean's specification of "equal value" (sameP) against the real RawEquals, on
@@ -949,8 +898,12 @@ func runC15(ctx *Ctx) {
 		}
 		c15Rejects(ctx, v, t)
 	}
+	runC15Inf(ctx)
+	runC15Conv(ctx)
 	// 3. documents, number parsing, NumOK
 	runC15Docs(ctx)
+	runC15Deep(ctx)
+	c15Floors(ctx)
 	sort.Strings(ctx.res.Samples)
 }
 
@@ -987,8 +940,14 @@ func runC15Corpus(ctx *Ctx) {
 		{cty.TupleVal([]cty.Value{cty.NumberFloatVal(1e23), cty.NullVal(cty.Object(map[string]cty.Type{"Ab": cty.Bool}))}),
 			cty.Tuple([]cty.Type{cty.Number, cty.ObjectWithOptionalAttrs(map[string]cty.Type{"Ab": cty.Bool}, []string{"Ab"})})},
 	}
-	for _, p := range pairs {
+	for i, p := range pairs {
+		// each recorded witness must still fail (else the record, or this list, is stale)
+		before := ctx.res.FailureCount
 		c15RoundTrip(ctx, p.v, p.t, "corpus")
+		if ctx.res.FailureCount == before {
+			ctx.Fail(Failure{Site: "corpus-stale", Sig: fmt.Sprintf("recorded-witness-no-longer-fails:%d", i), What: "the minimised witness of a recorded C15 finding round-trips now: the record in known_findings.json (or this list) is stale",
+				Input: encVal(p.v) + " " + encTy(p.t), GoLit: c15GoLit(p.v, p.t), Outcome: "round trip succeeded"})
+		}
 	}
 	// … and the witnesses of the REPAIRED part of the type loss (/repo afdc0a2: Unmarshal drops
 	// the optional-attribute annotations of the requested type): a null, an empty list / set /
